@@ -297,12 +297,19 @@ fn run_value(st: &mut State, case: &J, raw: &str) {
     };
     let mut c = C::new();
     c.set_value("a".into(), v.clone()).unwrap();
+    // neighbours of the name `a` that a normalising (de)serialiser would merge with it: letter case, a trailing blank
+    c.set_value("A".into(), Value::Int(3)).unwrap();
+    c.set_value("a ".into(), Value::Boolean(true)).unwrap();
     c.set_function("f".into(), make_function("id", None)).unwrap();
     c.set_builtin_functions_disabled(case.get("nb").bool()).unwrap();
     match round_trip(&c) {
         Ok(c2) => {
             let got = projection(&c2, &["f".to_string()]);
-            let want = (case.get("nb").bool(), vec![("a".to_string(), v.clone())], vec![]);
+            let want = (
+                case.get("nb").bool(),
+                vec![("A".to_string(), Value::Int(3)), ("a".to_string(), v.clone()), ("a ".to_string(), Value::Boolean(true))],
+                vec![],
+            );
             if !same_projection(&got, &want) {
                 st.fail("serde_context", format!("a context holding a = {v:?} comes back as {got:?}"), raw);
             }
